@@ -24,7 +24,7 @@ P = {
  'C04': ("cmpData_spec: the six operators on evaluated operands equal the RFC comparison (== and < primitive, others derived), eqJson_spec: JSON equality = RFC equality "
          "(numbers by exact value, containers structurally); derived-operator laws by rfl; trichotomy; C04_literals_representable: for ALL strings the number literals of an accepted query are integers in the I-JSON "
          "range or decimals that round to a finite double. Correspondence: operand-pair table x 6 operators x operand forms, containers of 47-130 members, quote-enclosed member "
-         "names, operands with colliding texts, i64 integers beyond 2^53.", "5.4",
+         "names, operands with colliding texts, i64 integers beyond 2^53, doubles one ulp apart.", "5.4",
          "proof by case analysis + mutual induction on Json; exhaustive operand table"),
  'C05': ("flt_spec/C05_logical: truth value computed for a child = RFC truth value of the logical expression for all well-formed filters (any nesting); C05_children: a filter "
          "selector keeps exactly the children satisfying it, in order; existence independent of the value; $ denotes the root.", "5.5",
@@ -41,7 +41,7 @@ P = {
          "with every i64 operation checked, no overflow for integers in the I-JSON range and lengths <= 2^62. Panics/aborts/timeouts of the real code are observed by "
          "isolated workers (overflow checks on): integer extremes, programmatically built ASTs, multi-byte text next to syntax errors, long queries, and ladders run on an "
          "UNOPTIMISED second build: nesting, 19 wide-document shapes (up to 200 000 / 10^6 elements), documents nested 1 000 / 10 000 (30 000) levels built in code, "
-         "long paths; regex patterns of every shape (crashes only). Open known findings: document nesting of thousands of levels exhausts the stack in descendant walks and deep equality; stack exhaustion at 10^3-10^4 nested "
+         "long paths, comparisons nested 40 levels inside count()/value(); regex patterns of every shape (crashes only). Open known findings: document nesting of thousands of levels exhausts the stack in descendant walks and deep equality; stack exhaustion at 10^3-10^4 nested "
          "parentheses; exponential backtracking on nested function calls with an unparsable innermost argument.", "5.8",
          "totality + invariants in Lean; runtime faults by isolated-worker correspondence"),
  'C09': ("walk_spec/put_get/frame: lens laws of reference/reference_mut over name/index steps for all documents, step lists and values; the string->steps link (parser on "
